@@ -91,7 +91,8 @@ def add_canaries(s, info):
             if mk < 0 or (nf and nf.start() < mk):
                 continue
             bo = mk + len('/*BODY*/')
-            if s[bo] == '{':
+            pre = s[max(0, mm.start() - 200):mm.start()].split('}')[-1]
+            if s[bo] == '{' and 'external_body' not in pre:
                 s = s[:bo + 1] + '\n assert(false); // CANARY\n' + s[bo + 1:]
     return s
 
